@@ -320,11 +320,11 @@ class WSGIRequestHandler(BaseHTTPRequestHandler):
             nonlocal status_set, headers_set
             if exc_info:
                 try:
-                    if headers_sent:
+                    if headers_sent is not None:
                         raise exc_info[1].with_traceback(exc_info[2])
                 finally:
                     exc_info = None
-            elif headers_set:
+            elif headers_set is not None:
                 raise AssertionError("Headers already set")
             status_set = status
             headers_set = headers
@@ -335,7 +335,7 @@ class WSGIRequestHandler(BaseHTTPRequestHandler):
             try:
                 for data in application_iter:
                     write(data)
-                if not headers_sent:
+                if headers_sent is None:
                     write(b"")
                 if chunk_response:
                     self.wfile.write(b"0\r\n\r\n")
